@@ -191,8 +191,15 @@ def r72(ctx, fx, et):
     # with_scope(loop_scope, Some(block), closure)
     ws = [x for x, p in lib.hir_calls(fl[0], "CodegenContext::with_scope")]
     ctx.inst(rid, key + "|scope")
-    if len(ws) != 1 or lib.hpath(lib.hargs(ws[0])[1]) != b.get("loop_scope"):
-        ctx.finding(rid, key + "|scope", "each iteration must run in the loop's scope (with_scope(loop_scope, …))", "%s:%s" % (et.file, arm.get("ln")))
+    # the scope is the loop's own (anonymous, unique per `.loop`) scope or a name derived from it (per iteration: R7.9)
+    scope_ok = False
+    if len(ws) == 1:
+        arg = lib.hargs(ws[0])[1]
+        lets_ = {n["pat"]["name"]: n["init"] for n in lib.hwalk(fl[0]) if n.get("k") == "let" and n["pat"].get("k") == "bind" and "init" in n}
+        src = lets_.get(lib.hpath(lib.strip(arg)), arg)
+        scope_ok = any(y.get("k") == "path" and lib.hpath(y) == b.get("loop_scope") for y in lib.hwalk(src))
+    if not scope_ok:
+        ctx.finding(rid, key + "|scope", "each iteration must run in (a scope derived from) the loop's own scope (with_scope(loop_scope…, …))", "%s:%s" % (et.file, arm.get("ln")))
         return
     clo = lib.strip(lib.hargs(ws[0])[3])
     seq = []
@@ -455,6 +462,41 @@ def r74(ctx, fx):
             ctx.finding(rid, key2, "%s does not restore `%s` on every path after the callback" % (nm.rsplit("::", 1)[1], restored), f.where)
 
 
+def r79(ctx, fx, et):
+    rid = ctx.rule("R7.9", "every iteration of a `.loop` runs in a scope of its own: the scope handed to with_scope inside the iteration is built from the iteration "
+                   "variable — with one scope for all iterations the block symbols `-`/`+` and every label of the body exist once, so later iterations silently "
+                   "keep (or clash with) the first iteration's")
+    arm = token_arm(et, "Loop")
+    if arm is None:
+        ctx.fail_closed(rid, "Token::Loop arm not found")
+        return
+    key = "%s|Loop|scope-per-iteration" % et.path
+    ctx.inst(rid, key)
+    fl = [n for n in lib.hwalk(arm["body"]) if n.get("k") == "match" and n.get("src") == "ForLoopDesugar" and lib.strip(n["scrut"]).get("k") == "call"]
+    if not fl:
+        ctx.fail_closed(rid, "the iteration loop of the Loop arm was not found")
+        return
+    itervar = None
+    for a_ in lib.hwalk(fl[0]):
+        if a_.get("k") == "struct" and lib.pm((a_.get("res") or {}).get("path"), "Option::Some") and a_.get("fields"):
+            q = a_["fields"][0].get("pat")
+            if q and q.get("k") == "bind":
+                itervar = q["name"]
+                break
+    sc = [x for x, p in lib.hir_calls(fl[0], "CodegenContext::with_scope")]
+    lets = {n["pat"]["name"]: n["init"] for n in lib.hwalk(fl[0]) if n.get("k") == "let" and n["pat"].get("k") == "bind" and "init" in n}
+    ok = False
+    if sc and itervar:
+        arg = lib.hargs(sc[0])[1]
+        nm = lib.hpath(lib.strip(arg))
+        src = lets.get(nm, arg)
+        ok = any(y.get("k") == "path" and lib.hpath(y) == itervar for y in lib.hwalk(src))
+    if not ok:
+        ctx.finding(rid, key, "all iterations of a `.loop` share one scope (the scope given to with_scope does not depend on the iteration): `bne -` in the second iteration "
+                    "branches to the first iteration's block start — `.loop 2 { dex / bne - }` assembles to `… D0 FA` instead of `… D0 FD`",
+                    "%s:%s" % (et.file, arm.get("ln")))
+
+
 def r75(ctx, fx):
     rid = ctx.rule("R7.5", "symbols that a construct inserts once per block / per iteration (`-`, `+`): the result of the insertion must not be discarded — a "
                    "`cannot redefine` failure thrown away means later iterations silently keep the first iteration's value (= R4.4 applied to with_scope)")
@@ -490,6 +532,7 @@ def run(ctx):
     r73(ctx, fx, et)
     r74(ctx, fx)
     r75(ctx, fx)
+    r79(ctx, fx, et)
     r76_77(ctx, fx, et)
     r78(ctx, fx)
     ctx.not_decided("byte equality of (P, expand(P)) on concrete programs; `.const` substitution; import scoping and export of names; nesting depth")
